@@ -60,6 +60,8 @@ func (g *Gen) freshResults(f *Frame, base string, sig *types.Signature) []Term {
 }
 
 func (g *Gen) havocAll(f *Frame) {
+	g.cur = f
+	g.frameHavocAll()
 	old := g.now(f.st)
 	g.nfresh++
 	f.st = &State{comp: map[string]string{}, base: fmt.Sprintf("e%d", g.nfresh)}
@@ -433,9 +435,13 @@ func (g *Gen) applyContract(f *Frame, c *Contract, names []string, args []Arg, s
 		g.havocAll(f)
 	} else {
 		nowOld := g.now(f.st)
+		// all targets are evaluated in the pre-call state, then havocked
+		pre := env.withState(old)
+		var targets []modLoc
 		for _, m := range c.Modifies {
-			g.havocTarget(f, env, m)
+			targets = append(targets, g.modLocs(pre, m)...)
 		}
+		g.havocTargets(f, pre, targets)
 		// allocation may have advanced
 		nn := g.fresh("now")
 		g.declare(nn, "Int")
@@ -464,17 +470,23 @@ func insName(ins ssa.Instruction) string {
 }
 
 // havocTarget havocs the location(s) named by a modifies clause.
-func (g *Gen) havocTarget(f *Frame, env *Env, m *Clause) {
-	for _, l := range g.modLocs(env, m) {
+func (g *Gen) havocTargets(f *Frame, env *Env, targets []modLoc) {
+	g.cur = f
+	for _, l := range targets {
 		if l.whole != "" { // whole component (e.g. elems(x))
+			if l.exceptRef != "" {
+				g.frameWrite(l.whole, l.exceptRef)
+			} else {
+				g.frameWrite(l.whole, "(- 0 999999999)")
+			}
 			n := g.fresh(l.whole + ".hv")
 			g.declare(n, g.compSort[l.whole])
 			oldc := g.get(f.st, l.whole)
 			f.st.comp[l.whole] = n
 			if l.exceptRef != "" {
 				// only the backing array exceptRef (and fresh arrays) may differ
-				g.emit("(assert (=> %s (forall ((r Int)) (! (=> (and (not (= r %s)) (<= r %s)) (= (select %s r) (select %s r))) :pattern ((select %s r))))))",
-					f.en, l.exceptRef, g.now(env.st), n, oldc, n)
+				g.emit("(assert (=> %s (forall ((r Int)) (=> (and (not (= r %s)) (<= r %s)) (= (select %s r) (select %s r))))))",
+					f.en, l.exceptRef, g.now(env.st), n, oldc)
 			}
 			continue
 		}
